@@ -879,3 +879,17 @@ def poll_loops(ctx, rid):
     f = A.fn("wtransport_proto::bytes::r#async::PutVarint::new")
     sg = [path_sig(p)[1] for p in nonpanic(walk(f))]
     ctx.check(rid, "PutVarint::new size from the encoder", len(sg) == 1 and re.search(r",0,BufferWriter::offset\(&BufferWriter::new\(", sg[0]) is not None, "PutVarint::new does not take varint_size from the number of bytes octets wrote: %s" % sg, where(f))
+
+
+def settings_with_frame_table(ctx, rid):
+    """Settings::with_frame: known->stored once, duplicate/reserved->H3_SETTINGS_ERROR, unknown->ignored, truncated->H3_FRAME_ERROR"""
+    f = ctx.A.fn("wtransport_proto::settings::Settings::with_frame")
+    rows = [
+        {"name": "end of payload->Ok", "atoms": [r"^BufferReader::capacity\(.*\) <= 0$"], "leaf": r"^return Result::Ok\(Settings::new\(\)\)$"},
+        {"name": "known, first->stored", "atoms": [r" is Vacant$"], "events": [r"^VacantEntry::insert\("], "leaf": r"^continue$"},
+        {"name": "known, duplicate->H3_SETTINGS_ERROR", "atoms": [r" is Occupied$"], "leaf": r"^return Result::Err\(ErrorCode::Settings\)$"},
+        {"name": "reserved->H3_SETTINGS_ERROR", "atoms": [r" is ReservedSetting$"], "leaf": r"^return Result::Err\(ErrorCode::Settings\)$"},
+        {"name": "unknown->ignored", "atoms": [r" is UnknownSetting$"], "not_events": [r"insert\("], "leaf": r"^continue$"},
+        {"name": "truncated->H3_FRAME_ERROR", "atoms": [r"get_varint\(.*\) is None$"], "leaf": r"^return Err\(from\(ErrorCode::Frame\)\)$"},
+    ]
+    match_table(ctx, rid, f, walk(f), rows, "Settings::with_frame")
